@@ -25,6 +25,21 @@ from .refmodels import c10_ref as R
 PID = "C10"
 ALPH = "ACGT"
 
+# failure classes observed on the unchanged library (judged genuine, see the final report).  Used ONLY to order the
+# failure list (new classes first); nothing is skipped or loosened because of this list.
+ON_UNCHANGED_TREE = {
+    "merged:d=0:exception:AttributeError",
+    "merged:d>0:no-entries:exception:IndexError",
+    "merged:d>0:chromosome-without-entries:exception:AttributeError",
+    "merged:d>0:entries-on-underscore-contig",
+    "Geometry.merge_intervals:adjacent-across-boundary:exception:AssertionError",
+    "Geometry.get_track:genome-end-not-covered:exception:AssertionError",
+    "map_locations:location-mapped-to-interval-ending-at-previous-chromosome-end",
+    "get_location:unstranded:stop:wrong-position",
+    "GenomicSequence[intervals]:stranded:no-entries:exception:ValueError",
+    "GenomicSequence[intervals]:stranded:all-intervals-length-1:exception:AttributeError",
+}
+
 
 # ----------------------------------------------------------------------------------------------- helpers
 
@@ -81,13 +96,19 @@ def dict_py(d):
     return {k: np.asarray(v).tolist() for k, v in d.items()}
 
 
-def make_genome(genome, filt):
+def make_genome(genome, filt, case=None):
     from bionumpy.genomic_data.genome import Genome
     from bionumpy.genomic_data.genome_context import ignore_underscores
-    d = {n: s for n, s in genome}
+    case = case or {}
+    d = {n: s for n, s in (case["genome"] if case.get("sort_names") else genome)}   # sort_names: dict in the given order
+    kw = {"sort_names": True} if case.get("sort_names") else {}
     if filt == "ign":
-        return Genome.from_dict(d, filter_function=ignore_underscores)
-    return Genome.from_dict(d)
+        g = Genome.from_dict(d, filter_function=ignore_underscores, **kw)
+    else:
+        g = Genome.from_dict(d, **kw)
+    if case.get("extra_ignored"):
+        g = g.with_ignored_added(list(case["extra_ignored"]))
+    return g
 
 
 def make_intervals(entries, strands=None):
@@ -146,6 +167,8 @@ def adjacency(kept, genome_inc, d):
 
 def parse(case):
     genome = [(n, int(s)) for n, s in case["genome"]]
+    if case.get("sort_names"):
+        genome = sorted(genome)
     filt = case["filter"]
     inc = R.included_names(genome, filt)
     genome_inc = [(n, s) for n, s in genome if n in inc]
@@ -164,7 +187,7 @@ def chk_offset(col, case):
     import numpy as np
     from bionumpy.datatypes import Interval
     genome, filt, inc, genome_inc, sizes = parse(case)
-    g = col.guarded(lambda: make_genome(genome, filt), "Genome.from_dict", case)
+    g = col.guarded(lambda: make_genome(genome, filt, case), "Genome.from_dict", case)
     if g is None:
         return
     go = g.get_genome_context().global_offset
@@ -258,7 +281,7 @@ def chk_sets(col, case):
     per = {n: [(s, e) for c, s, e in kept if c == n] for n in inc}
     u = us(genome, inc)
 
-    g = col.guarded(lambda: make_genome(genome, filt), "Genome.from_dict", case)
+    g = col.guarded(lambda: make_genome(genome, filt, case), "Genome.from_dict", case)
     if g is None:
         return
     ctx = g.get_genome_context()
@@ -308,6 +331,14 @@ def chk_sets(col, case):
             exp = [(n, s, e) for n in inc for s, e in R.merge(per[n], d)]
             col.case({"c": "merged", "d": d, **case}, contract="merged")
             sig = "merged:d=0" if d == 0 else "merged:d>0" + merged_q(kept, genome, inc)
+            if sig.endswith(":entries-on-underscore-contig"):
+                # one defect, several manifestations (entries dropped / GenomeError / AttributeError): one signature
+                try:
+                    got = ivs(gi.merged(d))
+                    col.check(got == exp, sig, case, "d=%d got %r expected %r" % (d, got, exp))
+                except Exception as e:
+                    col.fail(sig, case, "d=%d expected %r, raised %s: %s" % (d, exp, type(e).__name__, e))
+                continue
             got = col.guarded(lambda: ivs(gi.merged(d)), sig, case)
             if got is not None:
                 col.check(got == exp, sig + ":wrong-per-chromosome-result", case, "d=%d got %r expected %r" % (d, got, exp))
@@ -412,7 +443,7 @@ def chk_elem(col, case):
     kept = [(e, st) for e, st in zip(entries, strands) if e[0] in inc]
     kiv = [e for e, _ in kept]
     kst = [st for _, st in kept]
-    g = col.guarded(lambda: make_genome(genome, filt), "Genome.from_dict", case)
+    g = col.guarded(lambda: make_genome(genome, filt, case), "Genome.from_dict", case)
     if g is None:
         return
     geo_ok = all("_" not in c for c, _, _ in entries)
@@ -479,7 +510,7 @@ def chk_loc(col, case):
     locs = [(c, int(p)) for c, p in case["locs"]]
     kept = [l for l in locs if l[0] in inc]
     strands = "".join("+-"[i % 2] for i in range(len(locs)))
-    g = col.guarded(lambda: make_genome(genome, filt), "Genome.from_dict", case)
+    g = col.guarded(lambda: make_genome(genome, filt, case), "Genome.from_dict", case)
     if g is None or not locs:
         return
     ctx = g.get_genome_context()
@@ -604,7 +635,7 @@ def chk_array(col, case):
     from bionumpy.datatypes import BedGraph
     from bionumpy.genomic_data.geometry import Geometry
     genome, filt, inc, genome_inc, sizes = parse(case)
-    g = col.guarded(lambda: make_genome(genome, filt), "Genome.from_dict", case)
+    g = col.guarded(lambda: make_genome(genome, filt, case), "Genome.from_dict", case)
     if g is None:
         return
     ctx = g.get_genome_context()
@@ -678,7 +709,7 @@ def chk_spill(col, case):
         return
     per = {n: [(s, e) for c, s, e in entries if c == n] for n in inc}
     kept = [e for e in entries if e[0] in inc]
-    g = make_genome(genome, filt)
+    g = make_genome(genome, filt, case)
     ctx = g.get_genome_context()
     values = vals_of("distinct", genome_inc)
     for op in ("get_mask", "get_pileup"):
@@ -929,6 +960,38 @@ def gen_cases(tier):
             yield {"k": "sets", "genome": genome, "filter": filt, "entries": entries, "strands": st,
                    "parts": "US", "values": ("distinct", "edge", "const")[i % 3], "distances": [0, 1, 2] if i % 4 == 0 else [0, 1]}
 
+    # --- options: sort_names=True (genome order = sorted names); with_ignored_added (entries on such contigs dropped)
+    opt = [[("chr2", 2), ("chr10", 1), ("chr1", 3)], [("chr2", 1), ("chr1_alt", 2), ("chr1", 2)]]
+    if thorough:
+        opt += [[("chr2", S), ("chr10", S), ("chr1", S)], [("chrX", 1), ("chr2_r", 2), ("chr21", 3), ("chr2", 2)]]
+    for genome in opt:
+        for filt in ("keep", "ign"):
+            o = {"genome": genome, "filter": filt, "sort_names": True}
+            sg = sorted(genome)
+            yield {"k": "offset", **o}
+            entries = [(n, a, b) for n, s in sg for a, b in all_intervals(s)]
+            yield {"k": "elem", **o, "entries": entries, "strands": strand_patterns(len(entries), "quick")[0], "lengths": list(range(1, S + 2))}
+            yield {"k": "loc", **o, "locs": [(n, p) for n, s in sg for p in range(s)], "flanks": [0, 1, S], "window_sizes": [1, 2, S + 1],
+                   "bin_sizes": [1, 2, S]}
+            yield {"k": "array", **o, "values": "distinct"}
+            for i, choice in enumerate(itertools.product(*[boundary_menu(s) for _, s in sg])):
+                entries = [(sg[j][0], a, b) for j, ch in enumerate(choice) for a, b in ch]
+                yield {"k": "sets", **o, "entries": entries, "strands": strand_patterns(len(entries), "quick")[i % 2 if entries else 0], "parts": "US"}
+    for genome, filt in [([("chr1", 2), ("chr10", 3)], "keep"), ([("chr1", 3), ("chr1_alt", 2), ("chr2", 2)], "ign")] + \
+            ([([("chr10", S), ("chr1", 1), ("chr2", S)], "keep")] if thorough else []):
+        o = {"genome": genome, "filter": filt, "extra_ignored": ["chrM", "un_1"]}
+        yield {"k": "offset", **o}
+        for pos in range(len(genome) + 1):
+            menu = boundary_menu if len(genome) == 2 or thorough else small_menu
+            for i, choice in enumerate(itertools.product(*[menu(s) for _, s in genome])):
+                per = [[(genome[j][0], a, b) for a, b in ch] for j, ch in enumerate(choice)]
+                per.insert(pos, [("chrM", 0, 5), ("un_1", 1, 2)])
+                entries = [e for grp in per for e in grp]
+                yield {"k": "sets", **o, "entries": entries, "strands": strand_patterns(len(entries), "quick")[i % 2], "parts": "US"}
+            locs = [[(n, p) for p in range(s)] for n, s in genome]
+            locs.insert(pos, [("chrM", 7), ("un_1", 0)])
+            yield {"k": "loc", **o, "locs": [l for grp in locs for l in grp], "flanks": [0, 1, S], "window_sizes": [1, 2, S + 1], "bin_sizes": [1, 2, S]}
+
     # --- fasta-backed sequence, default filter of Genome.from_file
     fasta_genomes = [([("chr1", 3), ("chr10", 2)], "ign"),
                      ([("chr1", 2), ("chr1_alt", 3), ("chr10", 1), ("chr2", 3)], "ign"),
@@ -968,6 +1031,9 @@ def run(tier="quick", seed=0):
         col.guarded(lambda: GROUPS[case["k"]](col, case), "checker:" + case["k"], case)
         if col.out_of_time():
             break
+    # report order only: classes that already fail on the unchanged tree (see ON_UNCHANGED_TREE) go last, so that
+    # a class that is new on the tree under test is among the first ones listed
+    col.failures.sort(key=lambda f: f["signature"] in ON_UNCHANGED_TREE)
     return col.result()
 
 
